@@ -94,6 +94,9 @@ def gen_ops(tier, rng, doc):
         rng.shuffle(routes)
         rng.shuffle(acc)
         b += ['noise %d %s' % (i, hexs(w)) for w in noise[:len(noise) // 2]]
+        # look-alikes named like the symbolic constants (ordinary symbols `default : void`, `true : bool` ...) and like the two linkages always
+        # exist BEFORE the routes are asked: a legal earlier request must not capture a route
+        b += ['noise %d %s' % (i, hexs(w)) for w in [s for _, s, _ in syms] + [s for _, s in links] if w not in noise[:len(noise) // 2]]
         if rng.random() < 0.5:
             b += routes + acc
         else:
